@@ -71,6 +71,7 @@ TABLE: list[ClassDef] = [
             FieldDef("fs", "frozenset[int]", "fsint", "frozenset()"),
             FieldDef("fss", "frozenset[str]", "fsstr", "frozenset()"),
             FieldDef("ffs", "frozenset[frozenset[int]]", "fsfs", "frozenset()"),
+            FieldDef("tfs", "tuple[frozenset[int], ...]", "tfs", "()"),
             FieldDef("sk", "SKind", "senum", "SKind.ADD"),
             FieldDef("by", "bytes", "bytes", 'b""'),
             # comparable, but kept out of a dataclass-generated hash; shown nowhere; with metadata
